@@ -157,3 +157,17 @@ def interpreter(O):
         C01.interpreter_arms(O)
     finally:
         C01.rep = old
+
+
+@obligation("C17/parser-reset", desc="parser arm for `resetRandom;`: wherever it stands - also first in a block - exactly one "
+            "ResetRandom statement is added to the block")
+def parser_reset(O):
+    from . import C01
+    C01.STATEMENT_OBS["resetRandom"](dri.WithRep(O, rep()))
+
+
+@obligation("C17/bits-evaluates-once", desc="DataEntry::eval: bits(k, e) evaluates e exactly once (one draw for a random(..) "
+            "inside), not once per bit")
+def bits_once(O):
+    from . import C01
+    C01.bits_expansion(dri.WithRep(O, rep()))
